@@ -352,6 +352,23 @@ func TestC01Ex(t *testing.T) {
 			}
 		}
 	}
+	// exact Fibonacci frequencies over k distance symbols: from 17 on the distance code needs the length limiter
+	for k := 15; k <= 21; k++ {
+		for _, set := range []WSetting{{Ctor: "new", Level: 1}, {Ctor: "new", Level: 2}, {Ctor: "4k", Level: 2}} {
+			c := C01Case{Set: set}
+			c.Data = gen.Recipe{Segs: []gen.Seg{{Kind: "distfib", N: gen.DistFibLen(k), A: k, Seed: uint64(k)}}}
+			c.Ops = []gen.Op{{K: "W", N: c.Data.Len()}}
+			done := begin("C01", c)
+			labels, nt, err := checkC01(c)
+			done()
+			if err != nil {
+				saveLast("C01", c, err)
+				t.Fatalf("C01 violated (Fibonacci frequencies over %d distance symbols): %v", k, err)
+			}
+			stats.Record("C01", stats.Digest(c), nt, append(labels, "distance-depth-enumeration"), func() any { return c })
+			tl++
+		}
+	}
 	// buffer phase against token count for the 4 KiB window: k zero bytes, then incompressible data
 	// (the first full block of a fresh Writer ends with every possible number of pending tokens)
 	for k := 3900; k <= 4300; k++ {
